@@ -10,10 +10,10 @@
 (* must never be reachable.                                                *)
 (*                                                                         *)
 (* The chain is single-threaded (blockManager owns it), so one action per  *)
-(* call: PushBack (bounded_header_list.go:92-152) and ResetHeaderState     *)
+(* call: PushBack (bounded_header_list.go:90-149) and ResetHeaderState     *)
 (* (:52-58, which is "forget the pointers, PushBack").  Heights are the    *)
 (* ones blockManager uses: a reset names any height, every push carries    *)
-(* the height of Back() plus one (blockmanager.go:2797, :2927, :3010).     *)
+(* the height of Back() plus one (blockmanager.go:2790, :2929, :3012).     *)
 (***************************************************************************)
 EXTENDS HeaderListProps, FiniteSets, TLC, Json
 
@@ -30,10 +30,10 @@ NullNode == [id |-> 0, h |-> 0, prev |-> 0, anc |-> 0]
 \* ---- header_list.go ------------------------------------------------------
 RECURSIVE LowBit(_)
 LowBit(n) == IF n % 2 = 1 THEN 1 ELSE 2 * LowBit(n \div 2)
-InvertLowestOne(n) == IF n <= 0 THEN 0 ELSE n - LowBit(n)                   \* :58  n & (n-1)
-AncestorHeight(h) == IF h <= 0 THEN 0 ELSE InvertLowestOne(InvertLowestOne(h))   \* :67
+InvertLowestOne(n) == IF n <= 0 THEN 0 ELSE n - LowBit(n)                   \* :57  n & (n-1)
+AncestorHeight(h) == IF h <= 0 THEN 0 ELSE InvertLowestOne(InvertLowestOne(h))   \* :66-72
 
-\* Node.Ancestor (:95-121) from slot i for target height t; `fuel` bounds the loop: HANG stands
+\* Node.Ancestor (:95-120) from slot i for target height t; `fuel` bounds the loop: HANG stands
 \* for "the loop does not terminate" (the code has no bound of its own).
 RECURSIVE AncWalk(_, _, _, _)
 AncWalk(sl, i, t, fuel) ==
@@ -41,22 +41,22 @@ AncWalk(sl, i, t, fuel) ==
   ELSE IF sl[i].h = t THEN i
   ELSE IF fuel = 0 THEN HANG
   ELSE LET n == sl[i]  a == n.anc
-       IN  IF a # 0 /\ AncestorHeight(n.h) >= t /\ sl[a].h >= t /\ sl[a].h < n.h     \* :108-111
+       IN  IF a # 0 /\ AncestorHeight(n.h) >= t /\ sl[a].h >= t /\ sl[a].h < n.h     \* :107-110
            THEN AncWalk(sl, a, t, fuel - 1)
-           ELSE AncWalk(sl, n.prev, t, fuel - 1)                                      \* :117
+           ELSE AncWalk(sl, n.prev, t, fuel - 1)                                      \* :116
 Ancestor(sl, i, t) == IF i = 0 \/ t > sl[i].h THEN 0 ELSE AncWalk(sl, i, t, 4 * Len(sl) + 4)
 
 \* ---- bounded_header_list.go ------------------------------------------------
 \* PushBack(n) on bookkeeping b = [slots, head, tail, len]; returns the new bookkeeping and the
 \* slot whose address is returned.
 Push(b, k, id, h) ==
-  LET prevElem == IF b.tail # -1 /\ k # 1 THEN b.tail + 1 ELSE 0          \* :95-107
-      tail2    == (b.tail + 1) % k                                        \* :111-112
-      wrap     == tail2 <= b.head \/ b.head = -1                          \* :117
-      head2    == IF wrap THEN (b.head + 1) % k ELSE b.head               \* :118-119
-      sl1      == IF wrap THEN [b.slots EXCEPT ![head2 + 1].prev = 0] ELSE b.slots    \* :123
-      sl2      == [sl1 EXCEPT ![tail2 + 1] = [id |-> id, h |-> h, prev |-> prevElem, anc |-> 0]]  \* :129-141
-      a        == IF prevElem = 0 THEN 0 ELSE Ancestor(sl2, prevElem, AncestorHeight(h))          \* :142 buildAncestor
+  LET prevElem == IF b.tail # -1 /\ k # 1 THEN b.tail + 1 ELSE 0          \* :93-105
+      tail2    == (b.tail + 1) % k                                        \* :109-110
+      wrap     == tail2 <= b.head \/ b.head = -1                          \* :115
+      head2    == IF wrap THEN (b.head + 1) % k ELSE b.head               \* :116-117
+      sl1      == IF wrap THEN [b.slots EXCEPT ![head2 + 1].prev = 0] ELSE b.slots    \* :121
+      sl2      == [sl1 EXCEPT ![tail2 + 1] = [id |-> id, h |-> h, prev |-> prevElem, anc |-> 0]]  \* :127-138
+      a        == IF prevElem = 0 THEN 0 ELSE Ancestor(sl2, prevElem, AncestorHeight(h))          \* :139 buildAncestor (header_list.go:78-84)
       sl3      == [sl2 EXCEPT ![tail2 + 1].anc = IF a < 0 THEN 0 ELSE a]
   IN  [slots |-> sl3, head |-> head2, tail |-> tail2,
        len |-> IF b.len + 1 > k THEN k ELSE b.len + 1, ret |-> tail2 + 1]
@@ -71,7 +71,7 @@ ChainFrom(sl, i, fuel) ==
   ELSE <<[id |-> sl[i].id, h |-> sl[i].h]>> \o ChainFrom(sl, sl[i].prev, fuel - 1)
 
 ObsOf(b, k, r) ==
-  LET empty == b.tail = -1 /\ b.head = -1                                 \* Back() :65, Front() :77
+  LET empty == b.tail = -1 /\ b.head = -1                                 \* Back() :64-70, Front() :76-82
       bk    == IF empty THEN 0 ELSE b.tail + 1
       fr    == IF empty THEN 0 ELSE b.head + 1
       ch    == ChainFrom(b.slots, bk, k + 2)
